@@ -417,3 +417,127 @@ fn inst_str_and_lit() {
     let rej = ((i.0 != "b") as u8) | (((i.1 != 3) as u8) << 1);
     check_positions(e, &mism, rej, [0, 0, 0, 0], 2);
 }
+
+// ---------------------------------------------------------------- more shapes (mostly thorough tier)
+#[derive(Clone, PartialEq, Eq, Debug)]
+pub struct Name(pub &'static str);
+impl AsRef<str> for Name {
+    fn as_ref(&self) -> &str {
+        self.0
+    }
+}
+mock_fn!(FName, Name);
+mock_fn!(FBoolChar, (bool, char));
+mock_fn!(FI8, i8);
+mock_fn!(F3u, (u8, u8, u8));
+mock_fn!(FOptOpt, Option<Option<u8>>);
+mock_fn!(FRefOpt, Option<&'i u8>);
+
+/// string literal against a newtype that implements AsRef<str>
+//@K props=C06 tier=thorough label=inst feat=ext fn=matching!("ab"|"")[newtype:AsRef<str>]
+#[kani::proof]
+#[kani::unwind(10)]
+#[kani::stub(alloc::fmt::format, fmt_stub)]
+fn inst_newtype_str() {
+    let n = Name(any_str());
+    let (off, on, _) = verdicts::<FName>(matching!("ab" | ""), &n);
+    let e = match AsRef::<str>::as_ref(&n) {
+        "ab" | "" => true,
+        _ => false,
+    };
+    check(off, on, e);
+}
+
+/// bool and char literals, char range
+//@K props=C06,C19 tier=thorough label=inst feat=ext fn=matching!(false,'a'..='f')
+#[kani::proof]
+#[kani::unwind(10)]
+#[kani::stub(alloc::fmt::format, fmt_stub)]
+fn inst_bool_char() {
+    let i: (bool, char) = (kani::any(), kani::any());
+    let (off, on, mism) = verdicts::<FBoolChar>(matching!(false, 'a'..='f'), &i);
+    let e = match (&i.0, &i.1) {
+        (false, 'a'..='f') => true,
+        _ => false,
+    };
+    check(off, on, e);
+    let rej = (!matches!(i.0, false) as u8) | ((!matches!(i.1, 'a'..='f') as u8) << 1);
+    check_positions(e, &mism, rej, [0, 0, 0, 0], 2);
+}
+
+/// negative literals, half-open and open-ended ranges
+//@K props=C06 tier=quick label=inst feat=ext fn=matching!(-128..-100|-1|5..)
+#[kani::proof]
+#[kani::unwind(10)]
+#[kani::stub(alloc::fmt::format, fmt_stub)]
+fn inst_signed_ranges() {
+    let i: i8 = kani::any();
+    let (off, on, _) = verdicts::<FI8>(matching!(-128..-100 | -1 | 5..), &i);
+    let e = match &i {
+        -128..-100 | -1 | 5.. => true,
+        _ => false,
+    };
+    check(off, on, e);
+}
+
+/// three alternatives with bindings and a guard over them
+//@K props=C06 tier=thorough label=inst feat=ext fn=matching!((a,b,_)|(b,_,a)if*a==*b)
+#[kani::proof]
+#[kani::unwind(10)]
+#[kani::stub(alloc::fmt::format, fmt_stub)]
+fn inst_alternatives_guard() {
+    let i: (u8, u8, u8) = (kani::any(), kani::any(), kani::any());
+    let (off, on, _) = verdicts::<F3u>(matching!((a, b, _) | (b, _, a) if *a == *b), &i);
+    let e = match (&i.0, &i.1, &i.2) {
+        (a, b, _) | (b, _, a) if *a == *b => true,
+        _ => false,
+    };
+    check(off, on, e);
+}
+
+/// nested Option patterns with binding @ range
+//@K props=C06,C19 tier=quick label=inst feat=ext fn=matching!(Some(None)|Some(Some(1..=3)))
+#[kani::proof]
+#[kani::unwind(10)]
+#[kani::stub(alloc::fmt::format, fmt_stub)]
+fn inst_nested_option() {
+    let i: Option<Option<u8>> = kani::any();
+    let (off, on, mism) = verdicts::<FOptOpt>(matching!(Some(None) | Some(Some(1..=3))), &i);
+    let e = match &i {
+        Some(None) | Some(Some(1..=3)) => true,
+        _ => false,
+    };
+    check(off, on, e);
+    check_positions(e, &mism, (!e) as u8, [0, 0, 0, 0], 1);
+}
+
+/// reference-typed argument: Option<&u8> with a reference pattern
+//@K props=C06 tier=thorough label=inst feat=ext fn=matching!(Some(&7)|None)[Option<&u8>]
+#[kani::proof]
+#[kani::unwind(10)]
+#[kani::stub(alloc::fmt::format, fmt_stub)]
+fn inst_ref_pattern() {
+    let v: u8 = kani::any();
+    let i: Option<&u8> = if kani::any() { Some(&v) } else { None };
+    let (off, on, _) = verdicts::<FRefOpt>(matching!(Some(&7) | None), &i);
+    let e = match &i {
+        Some(&7) | None => true,
+        _ => false,
+    };
+    check(off, on, e);
+}
+
+/// ne! combined with a pattern and a guard
+//@K props=C06 tier=thorough label=inst feat=ext fn=matching!((ne!(&0),x)if*x>10)
+#[kani::proof]
+#[kani::unwind(10)]
+#[kani::stub(alloc::fmt::format, fmt_stub)]
+fn inst_ne_with_guard() {
+    let i: (u8, u8) = (kani::any(), kani::any());
+    let (off, on, _) = verdicts::<F2uu>(matching!((ne!(&0), x) if *x > 10), &i);
+    let e = match (&i.0, &i.1) {
+        (m0, x) if (*x > 10) && *m0 != 0 => true,
+        _ => false,
+    };
+    check(off, on, e);
+}
